@@ -43,8 +43,8 @@ func C15(c *Ctx) int {
 	}
 	ps = append(ps, evs...)
 	// (2) all bundled .bpmn files: structural round trip
-	files, _ := filepath.Glob("/repo/testdata/*.bpmn")
-	more, _ := filepath.Glob("/repo/examples/*/*.bpmn")
+	files, _ := filepath.Glob(RepoRoot() + "/testdata/*.bpmn")
+	more, _ := filepath.Glob(RepoRoot() + "/examples/*/*.bpmn")
 	files = append(files, more...)
 	for _, f := range files {
 		b, err := os.ReadFile(f)
